@@ -347,7 +347,14 @@ def run(ctx, B):
         if lc:
             e2.update(LOCPATH=loc, XDRV_LOCALE=lc)
         rounds = 1500 if quick else 20000
-        p = subprocess.run([texe, "16", str(rounds), str(ctx.seed)], stdout=subprocess.PIPE, stderr=subprocess.PIPE, text=True, env=e2, timeout=900)
+        try:
+            p = subprocess.run([texe, "16", str(rounds), str(ctx.seed)], stdout=subprocess.PIPE, stderr=subprocess.PIPE, text=True, env=e2, timeout=180)
+        except subprocess.TimeoutExpired as ex:
+            # the pass takes seconds; threads that never finish (a lock or heap structure damaged by a race) are an outcome, not an infrastructure failure.
+            # What was reported before the hang is evaluated as usual.
+            dec = lambda b: b.decode("latin-1") if isinstance(b, bytes) else (b or "")
+            p = subprocess.CompletedProcess(ex.cmd, -9, dec(ex.stdout), dec(ex.stderr))
+            ctx.violation("tsan|hang", "free-running pass%s did not finish within 180 s (it takes about a second): the threads hang" % (" [locale %s]" % lc if lc else ""), dict(tsan=True, locale=lc))
         n = p.stderr.count("WARNING: ThreadSanitizer")
         reports += n; tsan_calls += 16 * rounds
         if n:
@@ -356,9 +363,9 @@ def run(ctx, B):
             ctx.violation("tsan|data-race|%s" % (",".join(locs)[:80] or "heap-or-unknown"), "free-running ThreadSanitizer pass%s reports %d data race(s); first report:\n%s" % (" [locale %s]" % lc if lc else "", n, first),
                           dict(tsan=True, locale=lc))
         m = re.search(r"DONE .* mismatches=(\d+) locale_before=(\S+) locale_after=(\S+)", p.stdout)
-        if not m:
+        if not m and p.returncode != -9:
             ctx.violation("tsan|crash", "free-running pass did not finish: rc=%s %s" % (p.returncode, p.stdout[-300:] + p.stderr[-300:]), dict(tsan=True, locale=lc))
-        else:
+        elif m:
             mism += int(m.group(1))
             if int(m.group(1)):
                 ctx.violation("tsan|result-differs-from-serial", "free-running pass: %s results differ from the serial reference: %s" % (m.group(1), p.stdout[:400]), dict(tsan=True, locale=lc))
